@@ -105,6 +105,18 @@ func runC18(ctx *core.Ctx) {
 	for _, p := range props {
 		known[p] = true
 	}
+	// near-misses derived from the documented names: same suffix / prefix / one character off
+	segs := map[string]bool{}
+	for _, p := range props {
+		parts := strings.Split(p, "-")
+		segs[parts[len(parts)-1]] = true
+		segs[parts[0]] = true
+		unknown = append(unknown, p+"x", "x"+p, p+"-", "-"+p, p[:len(p)-1], strings.ToUpper(p[:1])+p[1:])
+	}
+	for sg := range segs {
+		unknown = append(unknown, "x-"+sg, "scrollbar-base-"+sg, sg+"-x", "-"+sg, sg+"-", "-vendor-"+sg)
+	}
+	sort.Strings(unknown)
 	ctx.Run("unknown", len(unknown), func(cs *core.Case) {
 		name := unknown[cs.Index]
 		if known[name] {
@@ -112,7 +124,16 @@ func runC18(ctx *core.Ctx) {
 		}
 		h := css.GetDefaultHandler(name)
 		lc := core.LocalCounts{}
-		for _, tok := range append(append([]string{}, pool...), "", " ", "inherit", "initial", "unset", "0") {
+		toks := append(append([]string{}, pool...), "", " ", "inherit", "initial", "unset", "0")
+		if cs.Index >= 60 { // derived names: every 7th pool token plus the universal ones keeps the count fixed and modest
+			toks = []string{"", "inherit", "initial", "unset", "0", "red", "#fff", "rgb(0,0,0)", "1px", "10%", "none", "auto", "solid", "left", "bold", "url(http://example.org/a.png)", "1", "1s", "center", "block"}
+			for i, t := range pool {
+				if i%7 == cs.Index%7 {
+					toks = append(toks, t)
+				}
+			}
+		}
+		for _, tok := range toks {
 			cs.Eval()
 			lc["unknown_property_calls"]++
 			if h(tok) {
@@ -293,6 +314,16 @@ func runC18(ctx *core.Ctx) {
 					}
 					if v := base[:p] + f.text + base[p+1:]; call(v) {
 						report(base, v, f, "substituted")
+					}
+				}
+				// functional notations: the fragment between the function's opening and a complete second
+				// copy of the value (`f(FRAG f(args)`), and as an extra leading argument
+				if i := strings.Index(base, "("); i > 0 {
+					open := base[:i+1]
+					for _, v := range []string{open + f.text + " " + base, open + f.text + ") " + base, open + f.text + "," + base[i+1:], open + f.text + " " + base[i+1:], base[:len(base)-1] + " " + f.text + ")", base + " " + open + f.text + ")"} {
+						if call(v) {
+							report(base, v, f, "function-sandwich")
+						}
 					}
 				}
 				lc["fragment_placements"] += 2 + 2*len(gen.CSSSeparators) + 3*len(base) - 2
